@@ -10,6 +10,7 @@ def lookupHandler (fam : String) : Option Handler :=
   | "posit" => some positHandler
   | "quire" => some quireHandler
   | "pconv" => some pconvHandler
+  | "thr" => some thrHandler
   | _ => none
 
 end UVerif.Driver
